@@ -167,4 +167,21 @@ theorem findLocal_param_frame (n : Nat) (frame rest : List Entry) (hf : NoMarker
         simp only [h, decide_false, Bool.false_eq_true, if_false, h', Option.map_map]
         simpa [Function.comp_def] using ih'
 
+/-- the first loop of `findEntry` started at the global frame index: the global space holds variables only, the loop
+returns the innermost of them -/
+theorem findLocal_globals (n : Nat) (act : Bool) (globals : List Entry)
+    (hg : ∀ e ∈ globals, ∃ m v, e = Entry.var m v) :
+    (findLocal n false act (globals ++ [.elemFrame 0])).map (·.1) = (globalBindings globals).lookup n := by
+  induction globals with
+  | nil => simp [findLocal, globalBindings]
+  | cons e es ih =>
+    have ih' := ih (fun x hx => hg x (List.mem_cons_of_mem _ hx))
+    obtain ⟨m, v, he⟩ := hg e (by simp)
+    subst he
+    simp only [List.cons_append, findLocal, globalBindings, List.lookup_cons]
+    by_cases h : m = n
+    · subst h; simp
+    · have h' : (n == m) = false := by simpa using fun hh => h hh.symm
+      simp only [h, if_false, h', Option.map_map]
+      simpa [Function.comp_def] using ih'
 end XalanModel.C01
